@@ -162,6 +162,17 @@ CLAIMS = {
          'on one file, every spelling of skip_verify) and 40 random sequences of loads / CA-file rewrites / waits of ten intervals against the real pool and watcher; after every step every client '
          'built by NewHTTPClient at load time opens NEW connections to the TLS servers of CA A and CA B; load results (nil / error / object identity) and handshake outcomes are compared with the '
          'pool model and with a settings-and-file-history reference in Coq.'},
+    'C16': {'note': 'Trusted: Coq kernel+vm_compute; the Go race detector and this machine\'s scheduler; the lexical translator (racesummary.go) and the committed list known_unprotected (Corr/C16.v) with the reason for each entry. '
+         'Gallina axioms: none. Unlock-synchronises-with-Lock (Go memory model) is taken as given. What the theorem cannot exhibit: the schedules themselves - those come from real goroutines.',
+ 'technique': 'Coq proof of lockset soundness over all event traces (any threads, any interleaving): two accesses by different threads under one correctly used lock are separated by Rel(t1);Acq(t2); '
+              'per-run obligation evaluated by coqc over an access summary REGENERATED from the Go sources (translator); plus the real service hammered by 16 goroutines under the happens-before race detector with a deadlock watchdog',
+ 'text': 'PARTIAL. Machine-checked once: C16_lockset_sound (for every trace in which the lock is acquired only when free and released only by its holder, accesses to one location by two threads that each hold the lock are '
+         'ordered by a release/acquire pair). Re-checked on every run against the current sources: a go/parser translator follows Lock/Unlock/defer regions in every non-test function of internal/..., including helpers '
+         'all of whose call sites hold the lock (fixpoint), and emits every access to a struct field or package variable as (location, function, write?, under its lock?, start-up?); coqc evaluates the obligation that every '
+         'location written while serving is accessed under its lock everywhere, except for a committed list with reasons; a new unprotected location is a VIOLATION (no-failing-input-found unless the detector also sees it). '
+         'Executed schedules: 4 OIDC filters (static and discovered endpoints x memory and Redis) sharing configuration objects, TLS pool, discovery cache, JWKS provider and stores are driven through the real '
+         'ExtAuthZFilter.Check by 16 goroutines issuing every request kind while the secret controller reconciles rotating secrets and the CA file is rewritten; built with -race; every report that involves the service is '
+         'canonicalised to its writer function(s) and reported with the two stacks as the replay; runtime aborts (concurrent map access) and a stalled request counter (deadlock) are findings too.'},
     'C06': {'note': 'Trusted: Coq kernel+vm_compute; the translator and its classification table; the OS CSPRNG. The syntactic summary cannot prove disjointness of draws (covered by the relation battery, i.e. '
          'tested). Gallina axioms: none.',
  'technique': "Coq theorems on an abstract generator (time-seeded => attacker's candidate list of size <= window always contains the id; CSPRNG with draws of its own => the public view is "
